@@ -44,41 +44,20 @@ func (m *C13) OnGenesis(e *eng.Engine, g map[string]json.RawMessage, s *obs.Snap
 	if json.Unmarshal(g["ecocredit"], &eco) != nil {
 		return
 	}
-	var classes []struct {
-		Key json.Number `json:"key"`
-		ID  string      `json:"id"`
-	}
-	var batches []struct {
-		Key   json.Number `json:"key"`
-		Denom string      `json:"denom"`
-	}
-	var origins []struct {
-		ClassKey json.Number `json:"class_key"`
-		ID       string      `json:"id"`
-		Source   string      `json:"source"`
-	}
-	var contracts []struct {
-		BatchKey json.Number `json:"batch_key"`
-		ClassKey json.Number `json:"class_key"`
-		Contract string      `json:"contract"`
-	}
-	_ = json.Unmarshal(eco[obs.TClass], &classes)
-	_ = json.Unmarshal(eco[obs.TBatch], &batches)
-	_ = json.Unmarshal(eco[obs.TOriginTx], &origins)
-	_ = json.Unmarshal(eco[obs.TBatchContract], &contracts)
 	cid := map[string]string{}
-	for _, c := range classes {
-		cid[c.Key.String()] = c.ID
+	for _, c := range GenRows(eco[obs.TClass]) {
+		cid[gs(c, "key")] = gs(c, "id")
 	}
 	bd := map[string]string{}
-	for _, b := range batches {
-		bd[b.Key.String()] = b.Denom
+	for _, b := range GenRows(eco[obs.TBatch]) {
+		bd[gs(b, "key")] = gs(b, "denom")
 	}
-	for _, o := range origins {
-		m.consumed[originKey{cid[o.ClassKey.String()], o.ID, o.Source}] = 0
+	for _, o := range GenRows(eco[obs.TOriginTx]) {
+		m.consumed[originKey{cid[gs(o, "class_key")], gs(o, "id"), gs(o, "source")}] = 0
+		m.foldSeen[originKey{cid[gs(o, "class_key")], gs(o, "id"), strings.ToLower(gs(o, "source"))}] = true
 	}
-	for _, c := range contracts {
-		m.bound[[2]string{cid[c.ClassKey.String()], c.Contract}] = bd[c.BatchKey.String()]
+	for _, c := range GenRows(eco[obs.TBatchContract]) {
+		m.bound[[2]string{cid[gs(c, "class_key")], gs(c, "contract")}] = bd[gs(c, "batch_key")]
 	}
 	m.scan(e, s, "genesis")
 }
@@ -382,48 +361,22 @@ func (m *C14) OnGenesis(e *eng.Engine, g map[string]json.RawMessage, s *obs.Snap
 	if json.Unmarshal(g["ecocredit"], &eco) != nil {
 		return
 	}
-	var classes []struct {
-		Key json.Number `json:"key"`
-		ID  string      `json:"id"`
-	}
-	var projects []struct {
-		Key json.Number `json:"key"`
-		ID  string      `json:"id"`
-	}
-	var cs []struct {
-		CT   string      `json:"credit_type_abbrev"`
-		Next json.Number `json:"next_sequence"`
-	}
-	var ps []struct {
-		K    json.Number `json:"class_key"`
-		Next json.Number `json:"next_sequence"`
-	}
-	var bs []struct {
-		K    json.Number `json:"project_key"`
-		Next json.Number `json:"next_sequence"`
-	}
-	_ = json.Unmarshal(eco[obs.TClass], &classes)
-	_ = json.Unmarshal(eco[obs.TProject], &projects)
-	_ = json.Unmarshal(eco[obs.TClassSeq], &cs)
-	_ = json.Unmarshal(eco[obs.TProjectSeq], &ps)
-	_ = json.Unmarshal(eco[obs.TBatchSeq], &bs)
 	cid := map[string]string{}
-	for _, c := range classes {
-		cid[c.Key.String()] = c.ID
+	for _, c := range GenRows(eco[obs.TClass]) {
+		cid[gs(c, "key")] = gs(c, "id")
 	}
 	pid := map[string]string{}
-	for _, p := range projects {
-		pid[p.Key.String()] = p.ID
+	for _, p := range GenRows(eco[obs.TProject]) {
+		pid[gs(p, "key")] = gs(p, "id")
 	}
-	u := func(n json.Number) uint64 { x, _ := n.Int64(); return uint64(x) }
-	for _, x := range cs {
-		m.classSeq[x.CT] = u(x.Next)
+	for _, x := range GenRows(eco[obs.TClassSeq]) {
+		m.classSeq[gs(x, "credit_type_abbrev")] = gu(x, "next_sequence")
 	}
-	for _, x := range ps {
-		m.projectSeq[cid[x.K.String()]] = u(x.Next)
+	for _, x := range GenRows(eco[obs.TProjectSeq]) {
+		m.projectSeq[cid[gs(x, "class_key")]] = gu(x, "next_sequence")
 	}
-	for _, x := range bs {
-		m.batchSeq[pid[x.K.String()]] = u(x.Next)
+	for _, x := range GenRows(eco[obs.TBatchSeq]) {
+		m.batchSeq[pid[gs(x, "project_key")]] = gu(x, "next_sequence")
 	}
 	m.scan(e, s, "genesis")
 }
